@@ -41,6 +41,17 @@ pub fn run(k: &str, a: &Value) -> Option<Value> {
                    "sub_vertices": sub.vertices().iter().map(|p| json!([fo(p.x), fo(p.y), fo(p.z)])).collect::<Vec<_>>(),
                    "sub_faces": sub.faces().iter().map(|t| json!([t[0], t[1], t[2]])).collect::<Vec<_>>()})
         }
+        "mesh_project" => {
+            let m = mesh(&a["vertices"], &a["faces"]);
+            let q = { let x = fv(&a["q"]); Point3::new(x[0], x[1], x[2]) };
+            let cap = f(&a["cap"]);
+            let pj = |r: Option<(parry3d_f64::query::PointProjection, u32, parry3d_f64::shape::TrianglePointLocation)>| r.map(|(p, id, _)| json!({"point": [fo(p.point.x), fo(p.point.y), fo(p.point.z)], "face": id}));
+            let sp = m.surf_closest_to(&q);
+            let c = m.point_closest_to(&q);
+            json!({"max": pj(m.project_with_max_dist(&q, cap)), "tol": pj(m.project_with_tol(&q, cap, f(&a["angle"]), None)),
+                   "surf": {"point": [fo(sp.point.x), fo(sp.point.y), fo(sp.point.z)], "normal": [fo(sp.normal.x), fo(sp.normal.y), fo(sp.normal.z)]},
+                   "closest": [fo(c.x), fo(c.y), fo(c.z)]})
+        }
         _ => return None,
     })
 }
